@@ -119,7 +119,7 @@ def coincidence(draw, tier):
     that coincide because the id digest is taken over the concatenated child ids + value + sign (Any('ab','c') / Any('a','bc');
     AtLeast(1,['a1']) / AtLeast(11,['a'])), or an explicit id that equals another sub-proposition's generated id. Also the
     harmless variant (the same definition written twice), which must be accepted."""
-    fam = draw(st.integers(0, 4))
+    fam = draw(st.integers(0, 5))
     kind = draw(st.sampled_from(["Any", "All", "AtLeast"]))
 
     def thr(children, v=None):
@@ -151,6 +151,18 @@ def coincidence(draw, tier):
         x2 = {"k": draw(st.sampled_from(["Any", "AtMost", "Xor"])), "id": "C", "c": [_leaf("a"), _leaf("b")]}
         if x2["k"] == "AtMost":
             x2["v"] = draw(st.integers(0, 2))
+    elif fam == 5:
+        # an explicit id re-used for two rules that look the same on their own level (same sign, value, child ids) while a
+        # same-named rule BELOW them is defined differently
+        k_in = draw(st.sampled_from(["Any", "All"]))
+        k_out = draw(st.sampled_from(["All", "Any"]))
+        d1 = {"k": k_in, "id": "D", "c": [_leaf("a"), _leaf("b")]}
+        d2 = draw(st.sampled_from([{"k": k_in, "id": "D", "c": [_leaf("c"), _leaf("d")]},
+                                   {"k": "Any" if k_in == "All" else "All", "id": "D", "c": [_leaf("a"), _leaf("b")]},
+                                   {"k": k_in, "id": "D", "c": [_leaf("a"), _leaf("b"), _leaf("c")]}]))
+        extra = [_leaf("e")] if draw(st.booleans()) else []
+        x1 = {"k": k_out, "id": "P", "c": [d1] + extra}
+        x2 = {"k": k_out, "id": "P", "c": [d2] + extra}
     else:
         x1 = thr([_leaf("a"), _leaf("bc")], v=draw(st.integers(1, 2)))
         x2 = copy.deepcopy(x1)          # the harmless variant: one definition written twice
@@ -167,7 +179,7 @@ def coincidence(draw, tier):
             wraps.append({"k": "Any", "id": "W%d" % j, "c": [{"k": "All", "id": None, "c": [x, _leaf("v%d" % j)]}, _leaf("u%d" % j)]})
     kids = wraps + ([_leaf("t", (-1, 2))] if draw(st.booleans()) else [])
     return {"model": {"k": draw(st.sampled_from(["All", "Any"])), "id": draw(st.sampled_from(["Top", None])), "c": list(draw(st.permutations(kids)))},
-            "twice": fam == 4}
+            "twice": fam not in (0, 1, 2, 3, 5)}
 
 
 def _resolve(spec):
